@@ -309,3 +309,21 @@ type Mb struct {
 	A  *Ma
 	As []Ma
 }
+
+// Embedded self pointers: EN embeds a pointer to itself, EA / EB embed pointers to each other.
+type EN struct {
+	*EN
+	V int
+}
+
+// EA embeds *EB.
+type EA struct {
+	*EB
+	X int
+}
+
+// EB embeds *EA.
+type EB struct {
+	*EA
+	Y int
+}
